@@ -464,7 +464,7 @@ M('C14-not-found-is-silent', 'C14', F_BUILD,
   "                    'require() file {} not found; used load path {}'.format(require_path_str, lua_path),  # noqa: E501\n"
   "                    require_token)\n",
   "            if reqd_filepath is None:\n                continue\n",
-  expect='R-C14-errors')
+  expect='R-C14-')
 M('C14-error-helper-returns', 'C14', F_BUILD,
   "        raise LuaBuildError(msg, self._tokens[node.start_pos])\n",
   "        util.error(msg)\n", expect='R-C14-errors')
